@@ -10,7 +10,7 @@ OUTSIDE = ['blocks omitted on request for wider types (synthesised samples are p
 EXPLANATION = ('O1: the packer harness of C01 with symbolic sample bytes (so constant and non-constant blocks arise symbolically) and a symbolic omission request; at the '
                'jls_core_fsr_summary1 seam every block is observed with its data: the block stream, its timestamps and the length are asserted identical to the written '
                'stream in all cases, the first block is always stored, a full <=8-bit block is omitted iff constant, a wider block iff omission is in effect. '
-               'O2: reader reconstruction of omitted blocks.')
+               'O2: jls_core_rd_fsr_data0 loads the block that holds a requested sample, stored or reconstructed (identity of the block; the reconstructed value is not asserted).')
 
 
 def obligations(tier):
@@ -20,6 +20,18 @@ def obligations(tier):
         ob = packer('O1_omit_decision_w%d' % bits, bits, 2, 0, 0, to, extra=['OMIT_REQUEST=1', 'OMIT_CHECK=1'], nmax=BLOCKS[bits] + 3,
                     desc='omission decision and invariance of the block stream, %d-bit samples, symbolic omission request' % bits)
         o.append(ob)
-    # O2 reader reconstruction: harness/c15_reader.c exists; u8 ran out of memory (11 GB), u4 returned a counterexample that does not reproduce natively
-    # (CBMC reads the level-1 summary through float data[][4] differently from the harness stub) -> not claimed.
+    # O2 reader reconstruction, block level (harness/c15_recon.c).  The window-level variant (harness/c15_reader.c, whole jls_core_fsr over 3 blocks) ran out of
+    # memory for u8 and returned a non-reproducing counterexample for u4 -> props/_unclaimed_C15_O2.txt.
+    for bits in ([8, 4] if tier == 'quick' else [8, 4, 1]):
+        blk = (16 * bits) // 8
+        o.append(Obl('O2_block_load_w%d' % bits, 'c15_recon.c', units=['core.c', 'buffer.c'], seams={'core.c': ['jls_core_rd_fsr_level1', 'jls_core_rd_chunk']},
+                     stubs=['log_stub.c', 'fp_stub.c'],
+                     defines=['JLS_VERIF_SIGNAL_COUNT=2', 'JLS_VERIF_SOURCE_COUNT=2', 'JLS_VERIF_FSR_BUFFER_U64=2', 'JLS_VERIF_BUF_DEFAULT_SIZE=160', 'JLS_VERIF_BUF_STRING_SIZE=16',
+                              'BITS=%d' % bits],
+                     unwind=max(3 * blk + 4, 12), typed_calloc=True, timeout=600 if tier == 'quick' else 2400, backend=PORTFOLIO, objbits=10,
+                     desc=('jls_core_rd_fsr_data0 for any sample of a 3-block u%d signal (stored, automatically omitted constant block, stored): the loaded block is the block of that sample '
+                           '(first sample id = block start also for an unaligned request into the omitted block, full count, width); bytes of stored blocks are the written ones') % bits,
+                     bound='3 blocks of 16 samples; symbolic requested sample, first sample id, stored bytes and constant',
+                     assumes=['level-1 index/summary provided at the jls_core_rd_fsr_level1 seam with mean = constant for the omitted block (what the writer stores, C02)',
+                              'the value filled into the reconstructed block is NOT asserted (CBMC 6.11 does not encode the read through the flexible float data[][4] member faithfully)']))
     return o
